@@ -526,24 +526,32 @@ func parseOneShot(out string, names []string) (Result, map[string]uint64) {
 }
 
 // CrossCheck re-asks an unsat assertion query of a second solver (one-shot).
-// Returns (agree, conclusive).
+// Returns (agree, conclusive). Solvers are tried briefly first, then with a longer timeout.
 func (s *Session) CrossCheck(extra *Term, want Result) (bool, bool) {
 	script := s.Script(extra, false)
-	for _, f := range []fb{fallbacks[2], fallbacks[1], fallbacks[0]} {
-		out, err := runOneShot(f.argv, script, FallbackTimeout)
-		if err != nil {
-			continue
+	var order []fb
+	if s.P.Kind == "cvc5-int" {
+		order = []fb{fallbacks[3], fallbacks[2], fallbacks[1]} // z3 fresh, z3-new, cvc5
+	} else {
+		order = []fb{fallbacks[0], fallbacks[1], fallbacks[2]} // cvc5-int, cvc5, z3-new
+	}
+	for _, to := range []time.Duration{4 * time.Second, 30 * time.Second} {
+		for _, f := range order {
+			out, err := runOneShot(f.argv, script, to)
+			if err != nil {
+				continue
+			}
+			r, _ := parseOneShot(out, nil)
+			if r == Unknown {
+				continue
+			}
+			atomic.AddInt64(&GStats.CrossChecked, 1)
+			if r != want {
+				atomic.AddInt64(&GStats.CrossDisagree, 1)
+				return false, true
+			}
+			return true, true
 		}
-		r, _ := parseOneShot(out, nil)
-		if r == Unknown {
-			continue
-		}
-		atomic.AddInt64(&GStats.CrossChecked, 1)
-		if r != want {
-			atomic.AddInt64(&GStats.CrossDisagree, 1)
-			return false, true
-		}
-		return true, true
 	}
 	return false, false
 }
